@@ -1,0 +1,69 @@
+""" Verification hooks. Every function here is a no-op unless the environment
+variable MOPEPGEN_VERIF is set to 1. Used by external checks to inject faults
+at the entry of the per-unit callers of callVariant and to trace per-unit
+results. """
+import json
+import os
+
+
+def enabled() -> bool:
+    """ Whether the verification hooks are switched on. """
+    return os.environ.get('MOPEPGEN_VERIF') == '1'
+
+
+class VerifInjectedError(RuntimeError):
+    """ Raised by an injected fault. """
+
+
+class VerifInjectedTimeout(TimeoutError):
+    """ Raised by an injected timeout. """
+
+
+def maybe_fail(unit_id:str) -> None:
+    """ Raise VerifInjectedError if unit_id is listed in MOPEPGEN_VERIF_FAIL
+    (comma separated), or a TimeoutError if it is listed in
+    MOPEPGEN_VERIF_TIMEOUT as <unit_id>@<n> and fewer than n timeouts were
+    injected for it so far (counted in the file MOPEPGEN_VERIF_TRACE + '.to'). """
+    if not enabled():
+        return
+    failing = os.environ.get('MOPEPGEN_VERIF_FAIL', '')
+    if failing and unit_id in failing.split(','):
+        raise VerifInjectedError(f"injected failure in {unit_id}")
+    timeouts = os.environ.get('MOPEPGEN_VERIF_TIMEOUT', '')
+    if timeouts:
+        for item in timeouts.split(','):
+            uid, _, n = item.rpartition('@')
+            if uid != unit_id:
+                continue
+            path = os.environ.get('MOPEPGEN_VERIF_TRACE', '/dev/null') + '.to'
+            try:
+                with open(path, 'rt') as handle:
+                    seen = handle.read().split('\n').count(unit_id)
+            except FileNotFoundError:
+                seen = 0
+            if seen < int(n):
+                with open(path, 'at') as handle:
+                    handle.write(unit_id + '\n')
+                raise VerifInjectedTimeout(f"injected timeout in {unit_id}")
+
+
+def trace(kind:str, **data) -> None:
+    """ Append one JSON line to the file named by MOPEPGEN_VERIF_TRACE. """
+    if not enabled():
+        return
+    path = os.environ.get('MOPEPGEN_VERIF_TRACE')
+    if not path:
+        return
+    data['kind'] = kind
+    line = json.dumps(data, sort_keys=True) + '\n'
+    fd = os.open(path, os.O_WRONLY | os.O_APPEND | os.O_CREAT, 0o644)
+    try:
+        os.write(fd, line.encode())
+    finally:
+        os.close(fd)
+
+
+def peptide_map_to_json(peptide_map) -> dict:
+    """ {sequence: [label, ...]} of a per-unit result. """
+    return {str(seq): [x.label for x in labels]
+        for seq, labels in peptide_map.items()}
